@@ -2,6 +2,4 @@ Require Extraction.
 Require Import ExtrOcamlBasic.
 From Zix Require Import PathNormSpec PathNormModel.
 Separate Extraction PathNormSpec.std_normal PathNormSpec.is_normal_form PathNormSpec.has_root
-  PathNormSpec.elems PathNormSpec.peqb PathNormSpec.class_A PathNormSpec.class_B
-  PathNormSpec.class_C PathNormSpec.class_D PathNormSpec.plain PathNormSpec.no_dotdot_tail
-  PathNormModel.zix_normal_full.
+  PathNormSpec.elems PathNormSpec.peqb PathNormModel.zix_normal_full.
